@@ -80,8 +80,10 @@ class ifthenelse(Command):
     def prec(self, tok: Union[Token, number]) -> int:
         """Return the operator precedence for the given token"""
         if tok in ['>', '<', '=']:
+            return 3
+        if isinstance(tok, (_not, NOT)):
             return 2
-        if isinstance(tok, (_and, AND, _or, OR, _not, NOT)):
+        if isinstance(tok, (_and, AND, _or, OR)):
             return 1
         return 0
 
@@ -114,9 +116,12 @@ class ifthenelse(Command):
                     postfix.append(stack.pop())
                 stack.pop()  # (
             else:
-                # Handle operators and precedence
-                while stack and self.prec(tok) <= self.prec(stack[-1]):
-                    postfix.append(stack.pop())
+                # Handle operators and precedence.  \not is a prefix
+                # operator: it has no left operand, so it never makes the
+                # operators that are already waiting apply first.
+                if not isinstance(tok, (_not, NOT)):
+                    while stack and self.prec(tok) <= self.prec(stack[-1]):
+                        postfix.append(stack.pop())
                 stack.append(tok)
         while stack:
             postfix.append(stack.pop())
